@@ -34,6 +34,8 @@ Ltac arc_args :=
   repeat match goal with
   | |- arc_init _ _ _ _ _ _ _ _ = arc_init _ _ _ _ _ _ _ _ => f_equal
   | |- (_, _) = (_, _) => apply cplx_eq; cbn [fst snd]
+  | |- (fst ?r, snd ?r) = ?r => destruct r; reflexivity
+  | |- ?r = (fst ?r, snd ?r) => destruct r; reflexivity
   end; try reflexivity; try ring.
 Ltac arc_agree :=
   cbv beta zeta;
